@@ -57,6 +57,9 @@ type c10Op struct {
 	IP     uint32 `json:"ip,omitempty"`
 	Host   string `json:"host,omitempty"`
 	Delta  int64  `json:"delta_s,omitempty"`
+	// ICMP, on a restart: 1 = the new server probes addresses before offering
+	// them (ICMPTimeout > 0), 2 = it does not, 0 = as before.
+	ICMP int `json:"icmp,omitempty"`
 }
 
 type c10Conf struct {
@@ -179,7 +182,14 @@ type c10World struct {
 	srv   *server
 	s4    *v4Server
 	shift time.Duration
+	// icmp: the running server probes addresses.  busy() says what the probes
+	// answer: the pool of a "loop" configuration lies in 127.0.0.0/28, where
+	// every address answers an echo request, so every probed address is in use;
+	// elsewhere nothing answers.
+	icmp bool
 }
+
+func (w *c10World) busy() bool { return w.icmp && w.conf.SubLo>>24 == 127 }
 
 func (w *c10World) create() {
 	cf := w.conf
@@ -196,7 +206,7 @@ func (w *c10World) create() {
 			GatewayIP:     c10Addr(cf.GW),
 			SubnetMask:    c10Addr(mask),
 			LeaseDuration: cf.LeaseSec,
-			ICMPTimeout:   0,
+			ICMPTimeout:   map[bool]uint32{false: 0, true: 20}[w.icmp],
 			dnsIPAddrs:    []netip.Addr{c10Addr(cf.Self)},
 		},
 	})
@@ -415,6 +425,9 @@ func (w *c10World) apply(o c10Op) (r c10Reply, panicked string) {
 		w.tick(time.Duration(o.Delta) * time.Second)
 		r = c10Reply{Code: 4}
 	case c10Restart:
+		if o.ICMP != 0 {
+			w.icmp = o.ICMP == 1
+		}
 		w.create()
 		r = c10Reply{Code: 4}
 	}
@@ -619,8 +632,12 @@ func (g *c10Gen) op() (o c10Op) {
 	return o
 }
 
-func c10DefaultConf(pool int) c10Conf {
-	base := uint32(10)<<24 | 0<<16 | 0<<8
+func c10DefaultConf(pool int) c10Conf { return c10ConfAt(uint32(10)<<24, pool) }
+
+// c10LoopConf puts the subnet on the loopback network (see busy).
+func c10LoopConf(pool int) c10Conf { return c10ConfAt(uint32(127)<<24, pool) }
+
+func c10ConfAt(base uint32, pool int) c10Conf {
 	return c10Conf{SubLo: base, SubHi: base + 15, GW: base + 1, Self: base + 2,
 		Start: base + 4, End: base + 4 + uint32(pool) - 1, LeaseSec: 3600}
 }
@@ -829,7 +846,21 @@ func c10Run(t *testing.T, out *vfOut, h c10History) {
 				fail(i, "reservation-changed", "static leases changed from %v to %v without the static-lease API", sb, sa)
 			}
 		}
-		if o.Kind == c10Discover && !hadLease && freeBefore > 0 {
+		busy := w.busy()
+		if busy && (o.Kind == c10Discover || o.Kind == c10Decline) && r.Code == 1 && r.YI != 0 {
+			// Every probed address answers: only a lease the client already
+			// had may be offered.
+			had := false
+			for _, l := range before {
+				if l.Mac == o.Mac && l.IP == r.YI {
+					had = true
+				}
+			}
+			if !had {
+				fail(i, "conflict-offered", "%s given although it answered the probe", c10Addr(r.YI))
+			}
+		}
+		if o.Kind == c10Discover && !hadLease && freeBefore > 0 && !busy {
 			if !(r.Code == 1 && dhcpv4.MessageType(r.MT) == dhcpv4.MessageTypeOffer && r.YI >= cf.Start && r.YI <= cf.End) {
 				fail(i, "liveness", "DISCOVER from a new client with %d free pool addresses answered %s", freeBefore, r.coq())
 			}
@@ -1091,5 +1122,14 @@ func c10Prelude(m []uint64) (hs []c10History) {
 	add("decline-then-restart", disc(1), sel(1, s, ""), disc(2), sel(2, s+1, ""), rel(1, s), dec(2, s+1), restart)
 	add("static-add-rejected-late", disc(2), st(c10StaticAdd, 2, cf.SubHi+5, "far"), restart)
 	add("generated-name-taken", disc(1), sel(1, s, "10-0-0-5"), disc(2), sel(2, s+1, ""), restart)
+	lcf := c10LoopConf(3)
+	ls := lcf.Start
+	lsel := func(mac uint64, ip uint32, host string) c10Op {
+		return c10Op{Kind: c10Request, Mac: mac, HasSID: true, SID: lcf.Self, HasReq: true, ReqIP: ip, Host: host}
+	}
+	icmpOn, icmpOff := c10Op{Kind: c10Restart, ICMP: 1}, c10Op{Kind: c10Restart, ICMP: 2}
+	hs = append(hs, c10History{conf: lcf, tag: "icmp-blocklist", ops: []c10Op{
+		disc(1), lsel(1, ls, "alpha"), tick(3700), icmpOn, disc(2), restart, tick(3700), disc(3), disc(1),
+		icmpOff, disc(2), lsel(2, ls+1, "beta"), tick(3700), disc(3), dec(2, ls+1), restart}})
 	return hs
 }
